@@ -32,6 +32,22 @@ impl Default for RawCfg {
 
 thread_local! {
     static CFG: Cell<RawCfg> = Cell::new(RawCfg::default());
+    /// how the codec uses the buffer API: (encoder style, decoder style), see `encode`/`decode`
+    static STYLE: Cell<(u8, u8)> = const { Cell::new((0, 0)) };
+}
+
+/// Called before every run (simcore run prelude): no per-thread configuration survives a run.
+pub fn reset() {
+    CFG.with(|x| x.set(RawCfg::default()));
+    STYLE.with(|x| x.set((0, 0)));
+}
+
+/// Draw how this run's raw codec talks to `EncodeBuf` / `DecodeBuf`: a codec is free to use any
+/// part of the `BufMut` / `Buf` API (put_slice, the `io::Write` adaptor, chunk_mut/advance_mut
+/// with remaining_mut checks; copy_to_bytes, chunk/advance, the `io::Read` adaptor, copy_to_slice).
+pub fn draw_styles(sim: &simcore::Sim) {
+    let s = (sim.draw(4) as u8, sim.draw(4) as u8);
+    STYLE.with(|x| x.set(s));
 }
 
 pub fn set_cfg(c: RawCfg) {
@@ -71,8 +87,35 @@ impl Encoder for RawEncoder {
     type Item = RawMsg;
     type Error = Status;
     fn encode(&mut self, item: RawMsg, dst: &mut EncodeBuf<'_>) -> Result<(), Status> {
-        dst.reserve(item.0.len());
-        dst.put_slice(&item.0);
+        match STYLE.with(|x| x.get()).0 {
+            1 => {
+                // the std::io::Write adaptor (what e.g. serde_json::to_writer uses)
+                use std::io::Write;
+                dst.writer().write_all(&item.0).map_err(|e| Status::internal(format!("raw codec: {e}")))?;
+            }
+            2 => {
+                // piecewise through chunk_mut/advance_mut, asking for room first
+                let mut rest: &[u8] = &item.0;
+                while !rest.is_empty() {
+                    if !dst.has_remaining_mut() {
+                        return Err(Status::internal("raw codec: the encode buffer reports no room"));
+                    }
+                    let c = dst.chunk_mut();
+                    let n = c.len().min(rest.len()).min(dst.remaining_mut());
+                    if n == 0 {
+                        return Err(Status::internal("raw codec: the encode buffer offers an empty chunk"));
+                    }
+                    dst.chunk_mut()[..n].copy_from_slice(&rest[..n]);
+                    unsafe { dst.advance_mut(n) };
+                    rest = &rest[n..];
+                }
+            }
+            3 => dst.put_slice(&item.0), // no reserve: a BufMut grows on demand
+            _ => {
+                dst.reserve(item.0.len());
+                dst.put_slice(&item.0);
+            }
+        }
         Ok(())
     }
     fn buffer_settings(&self) -> BufferSettings {
@@ -85,7 +128,33 @@ impl Decoder for RawDecoder {
     type Error = Status;
     fn decode(&mut self, src: &mut DecodeBuf<'_>) -> Result<Option<RawMsg>, Status> {
         let n = src.remaining();
-        Ok(Some(RawMsg(src.copy_to_bytes(n))))
+        match STYLE.with(|x| x.get()).1 {
+            1 => {
+                let mut v = Vec::with_capacity(n);
+                while src.has_remaining() {
+                    let c = src.chunk();
+                    if c.is_empty() {
+                        return Err(Status::internal("raw codec: the decode buffer has bytes remaining but offers an empty chunk"));
+                    }
+                    let k = c.len();
+                    v.extend_from_slice(c);
+                    src.advance(k);
+                }
+                Ok(Some(RawMsg(Bytes::from(v))))
+            }
+            2 => {
+                use std::io::Read;
+                let mut v = Vec::new();
+                src.reader().read_to_end(&mut v).map_err(|e| Status::internal(format!("raw codec: {e}")))?;
+                Ok(Some(RawMsg(Bytes::from(v))))
+            }
+            3 => {
+                let mut v = vec![0u8; n];
+                src.copy_to_slice(&mut v);
+                Ok(Some(RawMsg(Bytes::from(v))))
+            }
+            _ => Ok(Some(RawMsg(src.copy_to_bytes(n)))),
+        }
     }
     fn buffer_settings(&self) -> BufferSettings {
         BufferSettings::new(self.0.dec_buffer, self.0.dec_yield)
